@@ -9,7 +9,7 @@ import itertools
 from hypothesis import strategies as st
 
 from pbt.core import Outcome
-from pbt.props._loops import KINDS, LOGICS, make_loop, permitted
+from pbt.props._loops import KINDS, LOGICS, RAISE_KINDS, make_loop, permitted
 
 TECHNIQUE = "exhaustive 6x7x7 verdict table through run() + Hypothesis-generated request histories against a reference gate table, token-binding and cache-consistency oracles"
 LEVEL_TEXT = ("Exploration: the full gate-logic x executor-verdict x assessor-verdict table is enumerated through the real loop with stub agents "
@@ -33,7 +33,8 @@ EXHAUSTIVE_NOTE = {"quick": "6x7x7 verdict table x (4 prompts x cache on/off + 3
 _POOL = ["", "deploy", "deploy ", "Deploy", "a" * 300, "delete all", "x", "café ☃"]
 _prompt = st.one_of(st.sampled_from(_POOL), st.text(max_size=20))
 _conf = st.sampled_from([0.9, 0.9, 0.0, 1.0, 0.5])
-_req = st.tuples(_prompt, st.sampled_from(KINDS), st.sampled_from(KINDS + ["PERMIT", "PERMIT", "BLOCK"]), _conf, _conf).map(list)
+_ALLK = KINDS + sorted(RAISE_KINDS)
+_req = st.tuples(_prompt, st.sampled_from(_ALLK), st.sampled_from(_ALLK + ["PERMIT", "PERMIT", "BLOCK"]), _conf, _conf).map(list)
 
 
 def strategy(tier):
@@ -46,6 +47,9 @@ def enumerate_cases(tier):
         for prompt in ("deploy", "", "café ☃", "x" * 200):
             for cache in (False, True):
                 yield {"logic": logic, "cache": cache, "reqs": [[prompt, e, a]]}
+        if e == "RAISE" or a == "RAISE":
+            for rk in sorted(RAISE_KINDS):
+                yield {"logic": logic, "cache": False, "reqs": [["exception-type", rk if e == "RAISE" else e, rk if a == "RAISE" else a]]}
         for ec, ac in ((0.0, 0.0), (0.0, 1.0), (1.0, 0.0)):
             yield {"logic": logic, "cache": False, "reqs": [["confidence-corner", e, a, ec, ac]]}
 
@@ -114,7 +118,7 @@ def judge(case):
                 if (p2 == prompt) != (h2 == tok.request_hash):
                     out.fail("token:hash-binding", "token hashes of prompts %r / %r: %s / %s" % (p2, prompt, h2, tok.request_hash), detail)
             hashes[prompt] = tok.request_hash
-        if e != "RAISE" and a != "RAISE":
+        if e not in RAISE_KINDS and a not in RAISE_KINDS:
             stored[prompt] = snap
             last_pair[prompt] = (e, a)
     return out
